@@ -6,6 +6,8 @@ CONSTANTS
   ColumnMemo = "none"
   ParserScope = "per call"
   ScanMemo = "none"
+  OperandScope = "per call"
+  SubqueryColumns = "per table object"
   JobSet = "compiler"
 INIT Init
 NEXT Next
